@@ -1244,14 +1244,15 @@ def renamed(p, rng, reuse_across_parents=False):
             tglob.add(n)
             t.name = n
         return q
-    # top-level ids stay distinct from every nested id (an absolute path starts at a top-level task);
-    # below that, every container starts again with the same short list
+    # ids only have to be unique among siblings: every container starts again with the same short list, which also holds
+    # the ids of the top-level tasks (an absolute path starts at a TOP-LEVEL task, whatever is called the same further down)
     tops = [t for t in q.tasks if t.parent is None]
     for t in tops:
         n = fresh(tglob)
         tglob.add(n)
         t.name = n
-    inner_pool = [n for n in pool if n not in tglob]
+    inner_pool = list(pool)
+    rng.shuffle(inner_pool)
 
     def walk(c):
         used_here = set()
